@@ -15,6 +15,7 @@ package apk
 //@
 //@ func verify
 //@   property C02
+//@   requires f != nil
 //@   ghost dirOfFile *zipslicer.Directory = nil
 //@   on call getSigBlock(_) ret (z, b, e): dirOfFile = z
 //@   before call (*apkSigner).Verify(_, z): assert @v2_content_digests_are_recomputed_from_the_file z != nil && z == dirOfFile
